@@ -606,10 +606,15 @@ def strip_skip(prog, also=("interrupt",)):
 
 @st.composite
 def late_skip_program(draw):
-    prog = draw(gen.program_st(faults=False, max_features=2, max_items=2, min_rules=2, max_rules=3,
+    prog = draw(gen.program_st(faults=False, max_features=2, max_items=2, min_rules=2, max_rules=3, with_cleanup=True,
                                outcomes=["pass", "pass", "fail", "raise", "undefined", "skip"],
                                cfg=gen.cfg_st(flags=(), p_tags=0.3)))
     prog["hook_faults"] = [[draw(st.integers(0, 10000)), "skip_feature"]]
+    if draw(st.booleans()):
+        # cleanups registered by hooks (scenario, rule, feature level), some of them raising: an element that ended
+        # with a cleanup error keeps that status when the rest of its feature is given up afterwards
+        prog["cleanups"] = [{"at": draw(st.integers(0, 10000)), "raises": draw(st.booleans())}
+                            for _ in range(draw(st.integers(1, 3)))]
     return {"kind": "run", "program": prog}
 
 
